@@ -36,14 +36,14 @@ package circuitbreaker
 //@   requires notification_runs_unlocked: unlocked(cb.mutex)
 
 //@ func (*CircuitBreaker).setState
-//@   props C07 C08 C12
+//@   props C07 C08 C12 C03
 //@   mode seq, mon
 //@   requires wlocked(cb.mutex)
 //@   ensures set: cb.state == state
 //@   modifies cb.state
 
 //@ func (*CircuitBreaker).admitLocked
-//@   props C07 C08 C12
+//@   props C07 C08 C12 C03
 //@   mode seq, mon
 //@   requires wlocked(cb.mutex)
 //@   ghost exit if cb.state == StateHalfOpen && result == nil :: cb.admitted := cb.admitted + 1
@@ -55,7 +55,7 @@ package circuitbreaker
 //@   modifies cb.requestCount, cb.admitted
 
 //@ func (*CircuitBreaker).recordResultLocked
-//@   props C07 C08 C12
+//@   props C07 C08 C12 C03
 //@   mode seq, mon
 //@   requires wlocked(cb.mutex) && cbCfg(cb) && 0 <= cb.state && cb.state <= 2
 //@   requires seq: cbInv(cb)
@@ -75,7 +75,7 @@ package circuitbreaker
 //@   modifies cb.state, cb.failureCount, cb.successCount, cb.lastFailureTime, cb.lastSuccessTime, cb.nextAttempt
 
 //@ func (*CircuitBreaker).afterRequest
-//@   props C07 C08 C12
+//@   props C07 C08 C12 C03
 //@   mode seq, mon
 //@   requires unlocked(cb.mutex) && cbCfg(cb)
 //@   requires seq: cbInv(cb)
@@ -97,7 +97,7 @@ package circuitbreaker
 //@   modifies cb.state, cb.failureCount, cb.successCount, cb.lastFailureTime, cb.lastSuccessTime, cb.nextAttempt
 
 //@ func (*CircuitBreaker).beforeRequest
-//@   props C07 C08 C12
+//@   props C07 C08 C12 C03
 //@   mode seq, mon
 //@   ghost before setState :: cb.prev := cb.state
 //@   ghost after setState if cb.prev == StateOpen && cb.state == StateHalfOpen :: cb.admitted := 0
@@ -128,7 +128,7 @@ package circuitbreaker
 //@   may_panic
 
 //@ func (*CircuitBreaker).Execute
-//@   props C07 C08 C12
+//@   props C07 C08 C12 C03
 //@   mode seq, mon
 //@   may_panic
 //@   requires unlocked(cb.mutex) && cbCfg(cb) && fn != nil
@@ -176,7 +176,7 @@ package circuitbreaker
 //@   ensures result == cb.state
 
 //@ func (*CircuitBreaker).Counts
-//@   props C07 C08 C12
+//@   props C07 C08 C12 C03
 //@   requires unlocked(cb.mutex)
 //@   ensures failureCount == cb.failureCount && successCount == cb.successCount && requestCount == cb.requestCount
 
